@@ -252,6 +252,8 @@ def run(cx, tier='quick'):
             c08.check_union(cx, fn, rep, facts)
     from .c13 import include_own_scanners
     include_own_scanners(cx, facts, rep, ['::debug::', '::partial_eq::', '::hash::', '::clone::', '::default::'])
+    from .scope import check_scopes
+    check_scopes(cx, rep, ['_union'])
     rep.floor('SUM-UNION', 3)
     rep.floor('SHAPE+FLAGS', 10)
     rep.assumptions += ['from_raw_parts(p as *const u8, size_of::<Self>()) views exactly the bytes of the value', 'padding / uninitialised bytes are the documented reason for `unsafe`']
